@@ -192,6 +192,9 @@ func (lig *MorxSubtableLigature) parseComponents(src []byte, _ int) error {
 	}
 	src = src[lig.componentOffset:]
 	componentCount := (lig.ligatureOffset - lig.componentOffset) / 2
+	if L := len(src); L < 2*int(componentCount) {
+		return fmt.Errorf("EOF: expected length: %d, got %d", 2*componentCount, L)
+	}
 	lig.Components = make([]uint16, componentCount)
 	for i := range lig.Components {
 		lig.Components[i] = binary.BigEndian.Uint16(src[2*i:])
